@@ -33,7 +33,7 @@ RULE = ("lattice: cases = (filter node subset, storage order), executions = resp
         "non-trivial = distinct (filter, SED grid) pairs whose overlap is non-empty and whose filter has a non-zero response")
 ASSUMPTIONS = ["non-negative responses, strictly positive distinct frequencies", "lattice exhaustive; beyond it a finite seed-derived family"]
 REQUIRED_CLASSES = ['same-filter-binned-again-on-a-grid-of-equal-length', 'spectrum-resolving-a-narrow-filter', 'rebinned-before-normalising', 'package-of-100-models-and-100-wavelengths', 'integer-response', 'filter-file-overwritten-and-read-again', 'bin-edge-on-filter-end', 'several-nodes-in-one-bin', 'filter-decreasing-nu', 'sed-decreasing-nu', 'partial-overlap-low', 'partial-overlap-high',
-                    'filter-outside-sed', 'empty-bin', 'normalized-flat', 'linearity', 'file-filter', 'pkg-v1', 'pkg-v2', 'pkg-errors', 'irregular', 'seds-with-different-grids', 'filter-nu-in-other-unit', 'two-filters-one-response-array']
+                    'filter-outside-sed', 'empty-bin', 'normalized-flat', 'linearity', 'file-filter', 'pkg-v1', 'pkg-v2', 'pkg-errors', 'irregular', 'seds-with-different-grids', 'filter-nu-in-other-unit', 'two-filters-one-response-array', 'normalize-after-nu-reassigned']
 TIMEOUT = {'quick': 600, 'thorough': 3000}
 
 LAT_F = [2, 3, 4, 5, 6]
@@ -244,6 +244,21 @@ def _irregular(ctx, case, rec):
     if case['i'] % 2 and float(sum(fy)) > 0:
         # normalised in memory: the integral over frequency (in Hz) must become 1
         f.normalize()
+        if case['i'] % 4 == 1:
+            # history: the same object is given another frequency axis (twice as wide) and normalised again, then its own
+            # axis back and normalised a third time -- each normalize() must refer to the axis the object has at that moment
+            rec.cls('normalize-after-nu-reassigned')
+            own_nu = f.nu
+            f.nu = own_nu * 2.0
+            f.normalize()
+            rec.trans()
+            _, _, tot2 = convref.rebin_exact((np.asarray(fx) * 2.0), np.asarray(f.response, float), np.asarray(sx) * 2.0)
+            if abs(float(tot2) - 1.0) > 1e-11:
+                rec.violation('normalize|integral|after-nu-reassigned', {'i': case['i'], 'nu_unit': nu_unit}, {'integral_over_Hz_after_second_normalize': float(tot2)})
+                return
+            f.nu = own_nu
+            f.normalize()
+            rec.trans()
         fy = np.asarray(f.response, float)
         R0, over0, tot0 = convref.rebin_exact((np.asarray(fx) * 1.0), fy, sx)
         rec.ev()
